@@ -72,7 +72,7 @@ pub(crate) fn symbol_exact<'a>(t: &'a str) -> impl FnMut(Span<'a>) -> IResult<Sp
 #[cfg(not(feature = "trace"))]
 pub(crate) fn keyword<'a>(t: &'a str) -> impl FnMut(Span<'a>) -> IResult<Span<'a>, Keyword> {
     move |s: Span<'a>| {
-        if !is_reserved_in_force(t) {
+        if !is_reserved_in_force(t, &s) {
             return Err(Err::Error(make_error(s, ErrorKind::Fix)));
         }
         let (s, x) = map(
@@ -378,18 +378,20 @@ thread_local!(
     }
 );
 
+// `begin_keywords / `end_keywords directives by the offset at which they end:
+// Some(version) opens a region, None closes the innermost one.
+// The keyword set in force is a function of the position in the text, so it is kept by position
+// and not as parser state: a parser that is tried again after backtracking, or evaluated twice
+// because its memo entry was evicted, must neither repeat a directive nor see one that stands
+// after the text it is looking at.
+thread_local!(
+    static KEYWORDS_REGIONS: core::cell::RefCell<std::collections::BTreeMap<usize, Option<Version>>> = {
+        core::cell::RefCell::new(std::collections::BTreeMap::new())
+    }
+);
+
 pub(crate) fn begin_keywords(version: &str) {
     CURRENT_VERSION.with(|current_version| match version {
-        "1364-1995" => current_version.borrow_mut().push(Version::Ieee1364_1995),
-        "1364-2001" => current_version.borrow_mut().push(Version::Ieee1364_2001),
-        "1364-2001-noconfig" => current_version
-            .borrow_mut()
-            .push(Version::Ieee1364_2001Noconfig),
-        "1364-2005" => current_version.borrow_mut().push(Version::Ieee1364_2005),
-        "1800-2005" => current_version.borrow_mut().push(Version::Ieee1800_2005),
-        "1800-2009" => current_version.borrow_mut().push(Version::Ieee1800_2009),
-        "1800-2012" => current_version.borrow_mut().push(Version::Ieee1800_2012),
-        "1800-2017" => current_version.borrow_mut().push(Version::Ieee1800_2017),
         "directive" => current_version.borrow_mut().push(Version::Directive),
         _ => (),
     });
@@ -401,10 +403,45 @@ pub(crate) fn end_keywords() {
     });
 }
 
-pub(crate) fn current_version() -> Option<Version> {
-    CURRENT_VERSION.with(|current_version| match current_version.borrow().last() {
-        Some(x) => Some(*x),
-        None => None,
+pub(crate) fn begin_keywords_region(version: &str, offset: usize) {
+    let version = match version {
+        "1364-1995" => Version::Ieee1364_1995,
+        "1364-2001" => Version::Ieee1364_2001,
+        "1364-2001-noconfig" => Version::Ieee1364_2001Noconfig,
+        "1364-2005" => Version::Ieee1364_2005,
+        "1800-2005" => Version::Ieee1800_2005,
+        "1800-2009" => Version::Ieee1800_2009,
+        "1800-2012" => Version::Ieee1800_2012,
+        "1800-2017" => Version::Ieee1800_2017,
+        _ => return,
+    };
+    KEYWORDS_REGIONS.with(|x| x.borrow_mut().insert(offset, Some(version)));
+}
+
+pub(crate) fn end_keywords_region(offset: usize) {
+    KEYWORDS_REGIONS.with(|x| x.borrow_mut().insert(offset, None));
+}
+
+pub(crate) fn current_version(s: &Span) -> Option<Version> {
+    let directive = CURRENT_VERSION.with(|current_version| current_version.borrow().last().copied());
+    if directive.is_some() {
+        return directive;
+    }
+    KEYWORDS_REGIONS.with(|x| {
+        let x = x.borrow();
+        if x.is_empty() {
+            return None;
+        }
+        let mut regions = Vec::new();
+        for (_, v) in x.range(..=s.location_offset()) {
+            match v {
+                Some(v) => regions.push(*v),
+                None => {
+                    regions.pop();
+                }
+            }
+        }
+        regions.last().copied()
     })
 }
 
@@ -412,6 +449,7 @@ pub(crate) fn clear_version() {
     CURRENT_VERSION.with(|current_version| {
         current_version.borrow_mut().clear();
     });
+    KEYWORDS_REGIONS.with(|x| x.borrow_mut().clear());
 }
 
 // -----------------------------------------------------------------------------
@@ -429,7 +467,7 @@ pub(crate) fn concat<'a>(a: Span<'a>, b: Span<'a>) -> Option<Span<'a>> {
 }
 
 pub(crate) fn is_keyword(s: &Span) -> bool {
-    let keywords = match current_version() {
+    let keywords = match current_version(s) {
         Some(Version::Ieee1364_1995) => KEYWORDS_1364_1995,
         Some(Version::Ieee1364_2001) => KEYWORDS_1364_2001,
         Some(Version::Ieee1364_2001Noconfig) => KEYWORDS_1364_2001_NOCONFIG,
@@ -451,8 +489,8 @@ pub(crate) fn is_keyword(s: &Span) -> bool {
 
 /// A word that is reserved in IEEE 1800-2017 but not in the keyword set selected by
 /// an open `begin_keywords region is an ordinary identifier there, not a keyword.
-pub(crate) fn is_reserved_in_force(t: &str) -> bool {
-    let keywords = match current_version() {
+pub(crate) fn is_reserved_in_force(t: &str, s: &Span) -> bool {
+    let keywords = match current_version(s) {
         Some(Version::Ieee1364_1995) => KEYWORDS_1364_1995,
         Some(Version::Ieee1364_2001) => KEYWORDS_1364_2001,
         Some(Version::Ieee1364_2001Noconfig) => KEYWORDS_1364_2001_NOCONFIG,
